@@ -1305,6 +1305,39 @@ func c09(r *core.Run) {
 			o.Fail(p.Pos(f.Pos()), "%s: %s", core.FuncName(f), m)
 		}
 	})
+	r.Check("D4/K7/avg-flying-lags", "the smoothed in-flight count is a low-pass of the current one: in every update a·old + b·flying of avgFlying the weight b of the sample just produced does not exceed the weight a of the history (b ≤ a, i.e. b ≤ 1/2 for a convex update) [clause 'rejects under overload only when both the current and the smoothed number of in-flight requests exceed the capacity': with b > a the 'smoothed' number is dominated by the current one — it follows it within one completion — so the second conjunct of highThru says nothing the first does not, and a short burst (current > capacity, the average over the recent completions far below it) is shed although only the current number exceeds the capacity]", func(o *core.O) {
+		if !need(o) {
+			return
+		}
+		a := loadAlg
+		n := 0
+		for _, f := range p.PkgFuncs(loadPkg) {
+			for _, st := range core.StoresToField(f, c.field("avgFlying")) {
+				if _, fresh := st.Addr.(*ssa.FieldAddr).X.(*ssa.Alloc); fresh {
+					continue
+				}
+				got := a.Norm(st.Val)
+				ca, rest, lin := got.Coef("avg")
+				cb, rest2, lin2 := rest.Coef("flying")
+				av, okA := ca.IsConst()
+				bv, okB := cb.IsConst()
+				if !lin || !lin2 || !okA || !okB || len(rest2) != 0 {
+					continue // not a·avg + b·flying with constant weights: reported by D4/K7/avg-flying-convex
+				}
+				n++
+				r.Fn(core.FuncName(f))
+				if bv.Cmp(av) > 0 {
+					af, _ := av.Float64()
+					bf, _ := bv.Float64()
+					o.Fail(p.InstrPos(st), "avgFlying becomes %g·avg + %g·flying: the newest in-flight number outweighs the history, the smoothed number follows the current one within one completion (%.0f%% per completion) and a short burst above the capacity is shed although only the current number exceeds it", af, bf, bf*100)
+				}
+			}
+		}
+		o.Site(n)
+		if n == 0 {
+			o.Unres("no update of avgFlying of the form a·avg + b·flying with constant weights found in %s", loadPkg)
+		}
+	})
 	r.Check("D4/K3/options-applied-before-derived-values", "in lib/load a constructor that applies functional options to a local options struct reads no field of that struct while an option can still run: window, bucket count and threshold used to size the counters are the configured ones, not the defaults they had before the options loop", func(o *core.O) {
 		if !need(o) {
 			return
